@@ -1,6 +1,7 @@
 (* RoundTripFooter.v — C01, footer: the bincode map written by ArchiveFooter::serialize_into
    is parsed back by deserialize_from over any stream refining a cursor over
    body ++ footer (seek End(-4), length, seek back, take(len)). *)
+From MLA Require Import Limit.
 From MLA Require Import Base Stream Blocks Reader RoundTripBlocks.
 From Coq Require Import ZifyBool ZifyNat ZifyN.
 Open Scope N_scope.
@@ -89,6 +90,7 @@ Proof.
 Qed.
 
 Section RTFooter.
+  Context {LIM : Limit}.
   Variable S : Stream.
   Variable body : bytes.
   Variable m : footer.
@@ -96,6 +98,8 @@ Section RTFooter.
   Hypothesis HR : Refines S (body ++ ser_footer m) R.
   Hypothesis Hwf : wf_footer m.
   Hypothesis Hlen : len (ser_footer_map m) < 2 ^ 32.
+  (* ArchiveFooter::deserialize_from: bincode limit = len.min(BINCODE_MAX_DESERIALIZE) *)
+  Hypothesis Hlim : len (ser_footer_map m) <= lim.
 
   Lemma read_footer_spec s p : R s p ->
     exists s', read_footer S s = (s', Ok m) /\ R s' (len body + len (ser_footer_map m)).
@@ -115,6 +119,7 @@ Section RTFooter.
     { replace (len b - 4 - len fb) with (len body) by lia. apply target_start. lia. }
     destruct (read_full_spec S b R HR (Datatypes.S (N.to_nat (len fb))) s3 (len body) (len fb) HR3) as (s4 & -> & HR4); [lia|].
     unfold b at 1. rewrite sliceN_mid. unfold fb at 1. rewrite parse_ser_footer_map by exact Hwf.
+    fold fb. destruct (N.ltb_spec (N.min (len fb) lim) (len fb)) as [Hc|_]; [pose proof Hlim as Hq; fold fb in Hq; lia|].
     exists s4. split; [reflexivity|].
     replace (len body + N.min (len fb) (len b - len body)) with (len body + len fb) in HR4 by lia.
     exact HR4.
